@@ -19,6 +19,11 @@ Decided (all on normal forms, nothing on source text or positions):
                    f-string is zero padded to two digits (HourTimeRegex only sees 'T\\d\\d').
   C07.ampm-table   time parsers: the path condition of the AM/PM comment, tabulated over hour 0..24 x its boolean flags, is
                    true exactly for hours 1..12 and never when a flag set together with a 12-hour shift / pinned hour is true.
+  C07.ampm-split   the `if comment == 'ampm'` block of _date_time_resolution (base and Chinese), interpreted with _resolve_ampm
+                   read from its source on results holding {resolve} or {resolveToPast, resolveToFuture}: every slot present
+                   comes out as <slot>am and <slot>pm, none stays unsplit.
+  C07.hour-table   the if/elif chain that shifts an hour by -12 (am) / +12 (pm) in the time and date-time parsers, interpreted
+                   per marker x hour: am 12 -> 0, 1..11 unchanged; pm 1..11 -> +12, 12 -> 12; no marker unchanged.
   C07.compose      "<date> at <time>": in every date-time / date-time-range parser function that parses a time
                    sub-entity, the TIMEX it assigns is derived (dataflow) from that sub-result's own timex_str - and
                    from the date sub-result's timex_str when a date is parsed too - and format_short_time /
@@ -1398,6 +1403,245 @@ def rule_ampm_table(chk, idx):
 
 
 # ---------------------------------------------------------------------------------------------------
+# rule 9: the block that splits an am/pm-ambiguous result into <slot>am / <slot>pm, interpreted
+
+SPLIT_SHAPES = {
+    'time': {'value': '03:00:00'},
+    'datetime': {'value': '2016-11-07 03:00:00'},
+    'timerange': {'start': '03:00:00', 'end': '05:00:00'},
+    'datetimerange': {'start': '2016-11-07 03:00:00', 'end': '2016-11-07 05:00:00'},
+}
+SPLIT_SLOTS = (('resolve',), ('resolveToPast', 'resolveToFuture'))
+
+
+def ampm_split_block(fn, ev):
+    """the `if <comment> == 'ampm': ...` statement of _date_time_resolution, and the names of comment / result"""
+    for st in fn.body:
+        if isinstance(st, ast.If) and isinstance(st.test, ast.Compare) and len(st.test.ops) == 1 \
+                and isinstance(st.test.ops[0], ast.Eq):
+            a_, b_ = st.test.left, st.test.comparators[0]
+            for x, y in ((a_, b_), (b_, a_)):
+                if isinstance(x, ast.Name) and ev(y) == 'ampm':
+                    calls = [c for c in ast.walk(st) if isinstance(c, ast.Call) and isinstance(c.func, ast.Attribute)
+                             and c.func.attr == '_resolve_ampm' and c.args and isinstance(c.args[0], ast.Name)]
+                    if calls:
+                        return st, x.id, calls[0].args[0].id
+    return None, None, None
+
+
+def rule_ampm_split(chk, idx):
+    from .c09 import Interp, SelfRef, Unreadable, PyRaise
+    rid = 'C07.ampm-split'
+    chk.rule(rid, 'the am/pm splitting block of _date_time_resolution, interpreted with _resolve_ampm read from its source: every '
+                  'resolution slot present (resolve, or resolveToPast and resolveToFuture) comes out as <slot>am and <slot>pm', floor=2)
+    base = idx.cls(PKG + '.base_merged.BaseMergedParser')
+    done = set()
+    for c in [base] + idx.subclasses(base):
+        k, fn = idx.find_method(c, '_date_time_resolution')
+        if fn is None:
+            raise AnalysisError('anchor vanished: %s._date_time_resolution' % c.name)
+        if k in done:
+            continue
+        done.add(k)
+        ev = make_evalc(idx, k.mod, k)
+        st, cvar, rvar = ampm_split_block(fn, ev)
+        if st is None:
+            raise AnalysisError('%s._date_time_resolution: the `if comment == "ampm"` block that calls _resolve_ampm was not found' % k.name)
+        chk.consulted(k.mod.path)
+        problems, n = [], 0
+        for slots in SPLIT_SLOTS:
+            for tname, shape in sorted(SPLIT_SHAPES.items()):
+                for comment in ('ampm', ''):
+                    n += 1
+                    result = {'timex': 'T03', 'type': tname}
+                    for sl in slots:
+                        result[sl] = dict(shape)
+                    it = Interp(idx, hooks=[(lambda call: isinstance(call.func, ast.Attribute) and call.func.attr in ('to_pm', 'all_str_to_pm'),
+                                             'PM')])
+                    env = {cvar: comment, rvar: result, 'self': SelfRef(c)}
+                    try:
+                        it.stmt(st, env, (k.mod, k, fn))
+                    except Unreadable as e:
+                        raise AnalysisError('%s._date_time_resolution: the am/pm splitting block cannot be interpreted: %s' % (k.name, e))
+                    except PyRaise as e:
+                        problems.append('slots %s, type %s: raises %s' % ('+'.join(slots), tname, e))
+                        continue
+                    got = sorted(x for x in result if x.startswith('resolve'))
+                    want = sorted(sl + sfx for sl in slots for sfx in ('am', 'pm')) if comment else sorted(slots)
+                    if got != want:
+                        problems.append('with slot(s) %s present (type %s, comment %r) the result has %s, expected %s'
+                                        % ('+'.join(slots), tname, comment, got, want))
+        chk.judge(not problems, rid, k.mod.path, '%s._date_time_resolution[am/pm split]' % k.name,
+                  '%d result shapes interpreted; wrong: %s' % (n, '; '.join(problems[:2]) if problems else 'none'),
+                  'an am/pm-ambiguous result is not split completely: %s%s' % ('; '.join(problems[:3]),
+                                                                                 ' ... (%d cases)' % len(problems) if len(problems) > 3 else ''),
+                  st.lineno)
+
+
+# ---------------------------------------------------------------------------------------------------
+# rule 10: the hour produced under an am / pm marker, tabulated
+
+def marker_chain(fn, ev):
+    """the if/elif chain in which one branch shifts an int variable by -12 (am) and another by +12 (pm)
+    -> (top If node, var, [(If node of the branch, 'am'|'pm')]) or None"""
+    def shifts(body):
+        out = {}
+        for st in body:
+            for n in ast.walk(st):
+                var, sign = None, 0
+                if isinstance(n, ast.AugAssign) and isinstance(n.target, ast.Name) and ev(n.value) == 12 \
+                        and isinstance(n.op, (ast.Add, ast.Sub)):
+                    var, sign = n.target.id, (1 if isinstance(n.op, ast.Add) else -1)
+                elif isinstance(n, ast.Assign) and len(n.targets) == 1 and isinstance(n.targets[0], ast.Name) \
+                        and isinstance(n.value, ast.BinOp) and isinstance(n.value.op, (ast.Add, ast.Sub, ast.Mod)):
+                    if any(isinstance(x, ast.Name) and x.id == n.targets[0].id for x in ast.walk(n.value)) and \
+                            any(ev(x) == 12 for x in ast.walk(n.value) if isinstance(x, (ast.Constant, ast.Attribute))):
+                        var = n.targets[0].id
+                        sign = -1 if isinstance(n.value.op, ast.Sub) else 1
+                if var:
+                    out.setdefault(var, set()).add(sign)
+        return out
+
+    for top in own_walk(fn):
+        if not isinstance(top, ast.If):
+            continue
+        chain, cur = [], top
+        while True:
+            chain.append(cur)
+            if len(cur.orelse) == 1 and isinstance(cur.orelse[0], ast.If):
+                cur = cur.orelse[0]
+            else:
+                break
+        if len(chain) < 2:
+            continue
+        per = [shifts(b.body) for b in chain]
+        vars_ = set().union(*[set(p) for p in per]) if per else set()
+        for v in vars_:
+            roles = []
+            for b, p in zip(chain, per):
+                sg = p.get(v, set())
+                if sg == {-1}:
+                    roles.append((b, 'am'))
+                elif sg == {1}:
+                    roles.append((b, 'pm'))
+            if {r for _, r in roles} == {'am', 'pm'} and len(roles) == 2:
+                return top, v, roles
+    return None
+
+
+def hour_table(idx, mod, cls, fn, ev):
+    """-> (problems, nprobes) for the function's am/pm marker chain, or None when it has none"""
+    from .c09 import Interp, Unreadable, PyRaise
+    mc = marker_chain(fn, ev)
+    if mc is None:
+        return None
+    top, var, roles = mc
+    par = parents_of(fn)
+    block = None
+    for fld in ('body', 'orelse', 'finalbody'):
+        b = getattr(par.get(top), fld, None)
+        if isinstance(b, list) and any(x is top for x in b):
+            block = b
+    if block is None:
+        raise AnalysisError('%s.%s: cannot locate the block of the am/pm marker chain' % (cls.name, fn.name))
+    start = [i for i, x in enumerate(block) if x is top][0]
+    later = [st for st in block[start + 1:]
+             if any(isinstance(n, (ast.Assign, ast.AugAssign)) and any(isinstance(t, ast.Name) and t.id == var for t in
+                    (n.targets if isinstance(n, ast.Assign) else [n.target])) for n in ast.walk(st))]
+    chain_nodes = {id(b) for b, _ in roles}
+    every = set()
+    cur = top
+    while True:
+        every.add(id(cur))
+        if len(cur.orelse) == 1 and isinstance(cur.orelse[0], ast.If):
+            cur = cur.orelse[0]
+        else:
+            break
+    problems, n = [], 0
+    for scenario in ('am', 'pm', 'none'):
+        forced = [id(b) for b, r in roles if r == scenario]
+        hours = range(1, 13) if scenario != 'none' else range(0, 25)
+        for h in hours:
+            for inner in (True, False):         # conditions inside the taken branch that depend on unmodelled values: both ways
+                n += 1
+
+                def oracle(ifnode, expr, forced=forced, inner=inner):
+                    if id(ifnode) in every:
+                        return id(ifnode) in forced
+                    if any(isinstance(a_, ast.If) and id(a_) in forced for a_ in _anc(ifnode, par)):
+                        return inner
+                    return False
+                it = Interp(idx, oracle=oracle)
+                env = {var: h}
+                try:
+                    it.block([top] + later, env, (mod, cls, fn))
+                except Unreadable as e:
+                    raise AnalysisError('%s.%s: the am/pm marker chain cannot be interpreted: %s' % (cls.name, fn.name, e))
+                except PyRaise as e:
+                    problems.append('%s marker, hour %d: raises %s' % (scenario, h, e))
+                    continue
+                got = env.get(var)
+                if scenario == 'am':
+                    want = 0 if h == 12 else h
+                elif scenario == 'pm':
+                    want = 12 if h == 12 else h + 12
+                else:
+                    want = h
+                    if h == 24 and got == 0:
+                        want = 0            # the code's own 24 -> 0 wrap
+                if got != want:
+                    problems.append('%s: hour %d -> %r, expected %d' % ({'am': 'am marker', 'pm': 'pm marker', 'none': 'no marker'}[scenario],
+                                                                          h, got, want))
+    return sorted(set(problems), key=lambda x: (x.split(':')[0], len(x), x)), n
+
+
+HOUR_CONTROL = """
+def match_to_time(self, match):
+    hour = int(g)
+    if am(desc):
+        if hour >= 12:
+            hour -= 12
+        has_am = True
+    elif pm(desc):
+        if hour <= 12:
+            hour += 12
+        has_pm = True
+    if hour == 24:
+        hour = 0
+"""
+
+
+def rule_hour_table(chk, idx):
+    rid = 'C07.hour-table'
+    chk.rule(rid, 'the hour produced under an am / pm marker, tabulated: am 12 -> 0 and 1..11 unchanged; pm 1..11 -> +12 and '
+                  '12 -> 12; no marker: unchanged (24 -> 0 where the code wraps)', floor=2, control=True)
+    cmod = idx.mod(PKG + '.base_time')
+    ctl = hour_table(idx, cmod, idx.cls(PKG + '.base_time.BaseTimeParser'), ast.parse(HOUR_CONTROL).body[0], make_evalc(idx, cmod))
+    chk.control(rid, bool(ctl and ctl[0]))
+    anchored = False
+    for c in sorted(idx.all_classes(), key=lambda k: k.qual):
+        if not (c.mod.name == PKG or c.mod.name.startswith(PKG + '.')):
+            continue
+        if parser_type_of(idx, c, lambda k: make_evalc(idx, k.mod, k)) not in ('time', 'datetime'):
+            continue
+        for name, fn in sorted(c.methods.items()):
+            if '#' in name:
+                continue
+            res = hour_table(idx, c.mod, c, fn, make_evalc(idx, c.mod, c))
+            if res is None:
+                continue
+            problems, n = res
+            if c.name == 'BaseTimeParser' and name == 'match_to_time':
+                anchored = True
+            chk.consulted(c.mod.path)
+            chk.judge(not problems, rid, c.mod.path, '%s.%s' % (c.name, name),
+                      '%d probes (marker am/pm/none x hour); wrong: %s' % (n, '; '.join(problems[:3]) if problems else 'none'),
+                      'the hour conversion under an am/pm marker is wrong: %s' % '; '.join(problems[:4]), fn.lineno)
+    if not anchored:
+        raise AnalysisError('BaseTimeParser.match_to_time: the am/pm marker chain (one branch -12, one branch +12) was not found')
+
+
+# ---------------------------------------------------------------------------------------------------
 
 def run(chk):
     chk.explanation = ('contradiction rule on the time decoders (an int decoded from an hour/minute/second group must not be '
@@ -1411,6 +1655,8 @@ def run(chk):
     rule_pad(chk, idx)
     rule_compose(chk, idx)
     rule_ampm_table(chk, idx)
+    rule_ampm_split(chk, idx)
+    rule_hour_table(chk, idx)
     chk.assume('RegExpUtility.get_group / get_group_list / Match.group return the text of the named group; group names '
                'hour/min/sec denote digit groups whose language contains 0 and 00 (the property quantifies over 00:00..23:59:59)')
     chk.assume('callee identity is by attribute name on DateTimeFormatUtil (to_pm, all_str_to_pm); no monkey patching')
